@@ -1194,6 +1194,17 @@ static void join_adjacent_string_literals(Token *tok) {
   }
 }
 
+// Entry point for -E: directives and macro expansion only. The tokens
+// are printed as they are spelled, so pp-numbers are not converted (a
+// pp-number need not be a valid constant) and adjacent string literals
+// are not concatenated.
+Token *preprocess_only(Token *tok) {
+  tok = preprocess2(tok);
+  if (cond_incl)
+    error_tok(cond_incl->tok, "unterminated conditional directive");
+  return tok;
+}
+
 // Entry point function of the preprocessor.
 Token *preprocess(Token *tok) {
   tok = preprocess2(tok);
